@@ -62,10 +62,17 @@ def setup_case(ctx, case):
     # call history inside the case (so that it replays): the same seed was used for a longer and for a shorter chain
     # before; nothing of those calls may be remembered
     sk_l, pk_l = party_keys(seed, n + 2, 'h')
-    T.setup_amhl(aseed, list(pk_l))
-    A.setup(n + 3, aseed)
-    T.setup_amhl(aseed, list(pk_l[:max(n - 1, 1)]))
-    res = T.setup_amhl(aseed, list(pk))
+    try:
+        T.setup_amhl(aseed, list(pk_l))
+        A.setup(n + 3, aseed)
+        T.setup_amhl(aseed, list(pk_l[:max(n - 1, 2)]))
+        res = T.setup_amhl(aseed, list(pk))
+    except BaseException as e:
+        if n == 1:
+            ctx.unspec('single-party chain refused')
+        else:
+            ctx.violation({'clause': 'setup_amhl builds a chain for n parties', 'how': 'raises'}, f'seed {sname} n={n}: {e!r}')
+        return
     ctx.ran(3)
     cnt = 0
     raw = A.setup(n, aseed)
@@ -114,6 +121,20 @@ def setup_case(ctx, case):
     for i in range(n - 1):
         if A.verify_lock_key(Ys[i], key):
             ctx.violation({'clause': 'the final key opens only the last lock'}, f'seed {sname} n={n} hop {i}')
+    # no seed at all: every call draws its own, so two unseeded setups are two different chains, each consistent in itself
+    if sname == 's0':
+        env.Rand.reset(b'c18-unseeded')
+        u1, u2 = A.setup(n), A.setup(n)
+        ctx.ran(2)
+        if u1[0] == u2[0] or u1[1][-1] == u2[1][-1]:
+            ctx.violation({'clause': 'unseeded setups are independent chains'}, f'n={n}: two calls of AMHL.setup(n) returned the same secrets')
+        for u in (u1, u2):
+            acc = None
+            for i in range(n):
+                pt = refed.scalarmult_base_noclamp(u[0][i])
+                acc = pt if acc is None else refed.add_enc(acc, pt)
+                if u[1][i] != acc:
+                    ctx.violation({'clause': 'hop i tweak point = sum of the points of secrets 0..i', 'seed': 'none'}, f'unseeded n={n} hop {i}')
     # the empty seed makes the library draw a random one: the result must still be one consistent chain
     # (the values of a single result are related to each other, whatever was drawn; two calls, two chains)
     if sname == 's0':
@@ -148,7 +169,14 @@ def release_case(ctx, case):
     ys, Ys = ref_samples(aseed, n)
     ys2, _ = ref_samples(env.sym(seed, 'c18.other-chain', 16), 3)
     refund = {pk[i]: rpk[i] for i in range(n) if refunds and i % 2 == 0} if refunds else None
-    res = T.setup_amhl(aseed, list(pk), sigflags=flags, refund_pubkeys=refund)
+    try:
+        res = T.setup_amhl(aseed, list(pk), sigflags=flags, refund_pubkeys=refund)
+    except BaseException as e:
+        if n == 1:
+            ctx.unspec('single-party chain refused')
+        else:
+            ctx.violation({'clause': 'setup_amhl builds a chain for n parties', 'how': 'raises'}, f'seed {sname} n={n}: {e!r}')
+        return
     ctx.ran()
     fl = int(flags, 16)
     # per-hop sigfields: distinct contents, and the field set rotates over all eight sigfields
